@@ -1,4 +1,5 @@
-/- One full Stepper step from a generic pre-state (TrackOrder::none) (C02). -/
+/- One full Stepper step from a generic pre-state, given the specification of
+   InitializeTracks for the configured track order (C02). -/
 import CelerVerif.Lemmas.TrackInitStep2
 
 namespace CelerVerif.TrackInit
@@ -30,6 +31,23 @@ structure StepOk (cfg : Cfg) (s1 s' : State) : Prop where
   started : s'.c.numActive = (liveL s1.slots).length
     + min s1.c.numVacancies (s1.c.numInitializers + s1.pending.length)
 
+/-- specification of `InitializeTracksAction` as a whole (proved per track order) -/
+def ITSpec (cfg : Cfg) : Prop :=
+  ∀ s : State, Lens cfg s → Core s s.c.numInitializers → s.c.numInitializers ≤ cfg.capacity →
+    s.vacancies = (List.range cfg.slots).filter (fun i => !(s.slots.getD i Slot.empty).active) →
+    s.c.numVacancies = s.vacancies.length → (∀ x ∈ s.slots, x.stepOk) →
+    (liveL s.slots).length + s.c.numVacancies = cfg.slots →
+    Mid cfg (initializeTracks s) ∧
+    (initializeTracks s).c.numInitializers
+      = s.c.numInitializers - min s.c.numVacancies s.c.numInitializers ∧
+    (initializeTracks s).c.numVacancies
+      = s.c.numVacancies - min s.c.numVacancies s.c.numInitializers ∧
+    (initializeTracks s).pending = s.pending ∧
+    (initializeTracks s).c.numGenerated = s.c.numGenerated
+
+theorem itSpec_none {cfg : Cfg} (hord : cfg.order = .none) : ITSpec cfg :=
+  fun _ hL hC hcap hvac hnvac hst hocc => it_spec_none hord hL hC hcap hvac hnvac hst hocc
+
 theorem efs_error_pending {s s' : State} {e : Err}
     (h : extendFromSecondaries s = .error (e, s')) : s'.pending = s.pending := by
   unfold extendFromSecondaries at h
@@ -38,23 +56,22 @@ theorem efs_error_pending {s s' : State} {e : Err}
   · injection h with h; injection h with _ h2; rw [← h2]
   · cases h
 
-theorem stepBody_spec_none {cfg : Cfg} {s1 : State} (hord : cfg.order = .none)
+theorem stepBody_spec {cfg : Cfg} {s1 : State} (hIT : ITSpec cfg)
     (hP : Pre cfg s1) (o : List Outcome) (ho : OracleOk o) :
-    match stepBody o s1 with
-    | .ok s' => StepOk cfg s1 s'
-    | .error (e, s') => e = .capacity ∧ Lens cfg s' ∧ s'.pending = [] := by
+    (∀ s', stepBody o s1 = .ok s' → StepOk cfg s1 s') ∧
+    (∀ e s', stepBody o s1 = .error (e, s') → e = .capacity ∧ Lens cfg s' ∧ s'.pending = []) := by
   -- generate
   have hE1 := efp_spec hP.lens hP.core hP.evs hP.fit
   unfold stepBody
-  generalize extendFromPrimaries s1 = s2 at hE1 ⊢
+  generalize hs2 : extendFromPrimaries s1 = s2 at hE1 ⊢
   obtain ⟨p1, p2, p3, p4, p5, p6⟩ := hE1.same
   have hni := hE1.ninit
   -- start
-  have hT := it_spec_none (cfg := cfg) (s := s2) hord hE1.lens hE1.core
+  have hT := hIT s2 hE1.lens hE1.core
     (by rw [hni]; exact hP.fit)
     (by rw [p2, p1]; exact hP.vac) (by rw [p3, p2]; exact hP.nvac)
     (by rw [p1]; exact hP.status) (by rw [p1, p3]; exact hP.occupied)
-  generalize initializeTracks s2 = s3 at hT ⊢
+  generalize hs3 : initializeTracks s2 = s3 at hT ⊢
   obtain ⟨hM, t1, t2, t3, t4⟩ := hT
   -- pre, physics, post
   have hF := front_keeps hM.lens hM.core o ho
@@ -62,8 +79,8 @@ theorem stepBody_spec_none {cfg : Cfg} {s1 : State} (hord : cfg.order = .none)
   obtain ⟨f1, f2, f3, f4, f5, f6⟩ := hF
   -- end
   have hE := efs_spec (cfg := cfg) f1 (by rw [f5]; exact f2) f3
-  cases hres : extendFromSecondaries s4 with
-  | ok s' =>
+  constructor
+  · intro s' hres
     rw [hres] at hE
     have hocc : (liveL s'.slots).length + s'.c.numVacancies = cfg.slots := by
       rw [hE.nvac, hE.vac]
@@ -80,7 +97,7 @@ theorem stepBody_spec_none {cfg : Cfg} {s1 : State} (hord : cfg.order = .none)
     have hact : s'.c.numActive = (liveL s3.slots).length := by
       rw [hE.same.2.2, f5, hM.active]
       have := hM.occupied; omega
-    refine ⟨⟨hE.lens, hE.core, hcap, hE.vac, hE.nvac, hst, hpend, hocc⟩, ?_, ?_, hact, ?_⟩
+    refine ⟨⟨hE.lens, hE.core, hcap, hE.vac, hE.nvac, hst, hpend, hocc⟩, ?_, ?_, by rw [hs2, hs3]; exact hact, ?_⟩
     · rw [hE.same.2.1, f5, t4, hE1.ngen]
     · rw [hE.nalive]; omega
     · rw [hact]
@@ -89,8 +106,7 @@ theorem stepBody_spec_none {cfg : Cfg} {s1 : State} (hord : cfg.order = .none)
       rw [t2, p3, hni] at h1
       have := Nat.min_le_left s1.c.numVacancies (s1.c.numInitializers + s1.pending.length)
       omega
-  | error p =>
-    obtain ⟨e, s'⟩ := p
+  · intro e s' hres
     rw [hres] at hE
     refine ⟨hE.1, hE.2.lens, ?_⟩
     rw [efs_error_pending hres, f6, t3, hE1.pending]
